@@ -92,4 +92,12 @@ PLANS["kill-restart-early"] = P(
     [["submit", "a"], ["submit", "c"], ["kill"], ["restart"], ["submit", "a"], ["submit", "b"], ["submit", "c"], ["wait"]],
 )
 
+# --- Ctrl-C while the program waits (experiment.stop), then the same experiment again (C06, C11)
+WS = ["wait", "sigint"]
+PLANS["stop-restart"] = P({"a": {}, "b": {"deps": {"a": "direct"}}}, [["submit", "a"], ["submit", "b"], WS, ["restart"]] + submit_all("ab"))
+PLANS["stop-restart-fail"] = P({"a": {"codes": [1, 0]}, "b": {"deps": {"a": "list"}}, "c": {}},
+                               [["submit", "a"], ["submit", "b"], ["submit", "c"], WS, ["restart"]] + submit_all("abc"))
+PLANS["stop-restart-tok"] = P({"a": {"tok": {"t": 1}}, "b": {"tok": {"t": 1}}},
+                              [["submit", "a"], ["submit", "b"], WS, ["restart"]] + submit_all("ab"), {"t": 1})
+
 QUICK = list(PLANS)
